@@ -106,6 +106,7 @@ pub mod k {
     pub const HOSTILE_AT: i128 = 72; // us: one endpoint's connection 0.. injects hostile authenticated frames once
     pub const HOSTILE_KIND: i128 = 73; // catalogue entry (see hostile_frames)
     pub const HOSTILE_SIDE: i128 = 74; // which endpoint misbehaves (0 client, 1 server)
+    pub const READ_SERIAL: i128 = 75; // reader consumes one stream at a time (lowest id first), the others wait
     pub const RECONNECT: i128 = 70; // open this many further client connections, one per drained connection (slot reuse)
 }
 
@@ -252,6 +253,7 @@ struct App {
     p_dgram_unblocked: bool,
     p_readable: Vec<StreamId>,
     p_writable: Vec<StreamId>,
+    next_read_at: u64,
 }
 
 struct ConnSt {
@@ -305,6 +307,7 @@ pub struct World {
     accepted_pairs: Vec<usize>,
     drop_run: [i128; 2],
     injected: u64,
+    app_wakes: Vec<u64>,
 }
 
 fn ecn_code(e: Option<EcnCodepoint>) -> i128 {
@@ -451,6 +454,7 @@ impl World {
             accepted_pairs: Vec::new(),
             drop_run: [0, 0],
             injected: 0,
+            app_wakes: Vec::new(),
             p,
         };
         let (cert, key) = load_cert();
@@ -529,6 +533,7 @@ impl World {
             p_dgram_unblocked: false,
             p_readable: Vec::new(),
             p_writable: Vec::new(),
+            next_read_at: 0,
         }
     }
 
@@ -907,6 +912,9 @@ impl World {
         let close_at = self.p.get(k::CLOSE_AT, 0);
         let zero_rtt = self.p.get(k::ZERO_RTT, 0);
         let self_server_early = self.p.get(k::SERVER_EARLY, 0) != 0;
+        let read_serial = self.p.get(k::READ_SERIAL, 0) as u64;
+        let now_us = self.now;
+        let mut new_app_wake: Option<u64> = None;
         let self_nbidi = self.p.get(k::NBIDI, 1) as u64;
         let self_nuni = self.p.get(k::NUNI, 0) as u64;
         let self_ndgram = self.p.get(k::NDGRAM, 0) as u64;
@@ -1071,6 +1079,19 @@ impl World {
             // reads
             readable.sort();
             readable.dedup();
+            if read_serial > 0 && now_us < app.next_read_at {
+                // the slow reader is pausing between two streams
+                app.p_readable.extend_from_slice(&readable);
+                readable.clear();
+            }
+            if read_serial > 0 {
+                // only the lowest unfinished stream is read now; the rest stays pending
+                let undone: Vec<StreamId> = readable.iter().cloned().filter(|id| !app.inp.get(&u64::from(*id)).is_some_and(|i| i.done)).collect();
+                if undone.len() > 1 {
+                    app.p_readable.extend_from_slice(&undone[1..]);
+                    readable = vec![undone[0]];
+                }
+            }
             for id in readable {
                 let sid = u64::from(id);
                 let peer_salt = if app.is_client { app.salt + 500 } else { app.salt - 500 };
@@ -1102,6 +1123,10 @@ impl World {
                                     }
                                 }
                                 Ok(None) => {
+                                    if read_serial > 0 {
+                                        app.next_read_at = now_us + read_serial;
+                                        new_app_wake = Some(app.next_read_at);
+                                    }
                                     ins.done = true;
                                     tr.push(vec![3, t, e, c, 6, sid as i128, ins.read as i128, 0]);
                                     did = true;
@@ -1257,6 +1282,9 @@ impl World {
             }
         }
         self.trace.extend(tr);
+        if let Some(w) = new_app_wake {
+            self.app_wakes.push(w);
+        }
         did
     }
 
@@ -1418,6 +1446,10 @@ impl World {
             };
             for pk in &self.net {
                 upd(pk.at);
+            }
+            self.app_wakes.retain(|w| *w > self.now);
+            for w in &self.app_wakes {
+                upd(*w);
             }
             for ep in &self.eps {
                 if ep.silent {
